@@ -225,6 +225,16 @@ impl<'a> Gen<'a> {
             self.fuel -= 2;
             let (e, et) = self.any(&cx, d);
             if et.may_be_nil() && !self.allow_nil_binds { continue; }
+            // a binding step whose pattern pins a variable in scope (inside a function body: a variable the closure must capture);
+            // the pinned position holds that very variable, so the step always succeeds
+            let pinnable: Vec<String> = cx.vars.iter().filter(|(n, t)| !t.has_fn() && !FIELDS.contains(&n.as_str())).map(|(n, _)| n.clone()).collect();
+            if !pinnable.is_empty() && self.rng.chance(1, 10) {
+                self.feat("pin_in_a_binding_step_pattern");
+                let u = pinnable[self.rng.below(pinnable.len())].clone(); let a = self.name();
+                steps.push(if self.rng.chance(1, 2) { format!("[{}, &{}] = [{}, {}]", a, u, e, u) } else { format!("A[&{}, {}] = A[{}, {}]", u, a, u, e) });
+                cx.bind(&a, et); cx.flow = Some(Ty::ok());
+                continue;
+            }
             match self.rng.below(4) {
                 0 if !et.may_be_nil() => { self.feat("bare_step"); steps.push(e); cx.flow = Some(et); }
                 1 => { // in-chain bind
@@ -624,10 +634,10 @@ fn swap_branches(src: &str, rng: &mut Rng) -> Option<String> {
 
 // ---------------------------------------------------------------------- the check
 
-pub enum Verdict { Agree, Inconclusive(String), Rejected, Disagree(String, String, Vec<&'static str>) }
+pub enum Verdict { Agree, Inconclusive(String), Rejected(String), Disagree(String, String, Vec<&'static str>) }
 
 pub fn judge(src: &str, b: &qv::Builtins, mods: &HashMap<String, String>, rep: Option<&Report>) -> Verdict {
-    let bc = match crate::procsys::compile_entry(src, b) { Ok(bc) => bc, Err(_) => return Verdict::Rejected };
+    let bc = match crate::procsys::compile_entry(src, b) { Ok(bc) => bc, Err(e) => return Verdict::Rejected({ let t = format!("{:?}", e); t.split(|c: char| !c.is_alphanumeric()).filter(|w| !w.is_empty()).take(2).collect::<Vec<_>>().join(":") }) };
     let (reference, counters) = refsem::evaluate(src, mods);
     match &reference {
         Outcome::Unsupported(r) => return Verdict::Inconclusive(format!("outside the reference evaluator: {}", r)),
@@ -682,7 +692,7 @@ pub fn check(rep: &Report) {
         in_flight.lock().unwrap().remove(&j);
         let v = match v0 { Ok(v) => v, Err(p) => { if p.contains("stack") { Verdict::Inconclusive("harness stack".into()) } else { Verdict::Disagree(format!("panic: {}", p), "reference or compiler panicked".into(), vec![]) } } };
         match v {
-            Verdict::Rejected => { rep.count(&format!("{}_rejected_by_compiler", family), 1); }
+            Verdict::Rejected(kind) => { rep.count(&format!("{}_rejected_by_compiler", family), 1); if family.starts_with("generated") { rep.count(&format!("generated_rejection={}", kind), 1); if kind.contains("InternalError") && std::env::var("VERIF_C02_SHOW_INTERNAL").is_ok() { eprintln!("INTERNAL [{}] {:?}\n{}\n", family, crate::procsys::compile_entry(&src, &b).err(), src); } } }
             Verdict::Inconclusive(why) => { rep.count(&format!("{}_inconclusive", family), 1); rep.count(&format!("inconclusive: {}", why), 1); }
             Verdict::Agree => {
                 rep.eval(1); rep.count(&format!("{}_agree", family), 1); rep.distinct(cv_hash(&src));
